@@ -20,7 +20,6 @@ RULE = (
     "with nothing in a valid node."
 )
 ASSUMPTIONS = [
-    "can_append with an empty argument is not judged (upstream falls back to a type-compatibility heuristic)",
     "can_replace/can_replace_with judge the marks of the replacement only (the existing children are the node's own business)",
 ]
 
@@ -343,3 +342,24 @@ def _replace_predicates(ctx, sch, rnd, g, n_, t_, d2, p2, bad, sid, depth, what)
             continue
         if bool(got) != exp:
             bad("can_append", "%s%r.can_append(node with children %r) = %r, reference %r" % (tname, seq, names_of(fk), got, exp), expected=exp)
+    # can_append with an EMPTY node: nothing is appended, so the resulting child sequence is the
+    # node's own.  (The library additionally wants the two types to share a possible first child -
+    # documented upstream, recorded as a known finding keyed on exactly that fact.)
+    from ..refschema import first as _first
+
+    if matches(regex, seq) and marks_ok(rs, tname, kids):
+        cands = [x for x, t_ in rs.nodes.items() if not t_.is_text and not t_.is_leaf and not t_.required_attrs]
+        for on in rnd.sample(cands, min(3, len(cands))):
+            try:
+                other = S.nodes[on].create()
+                got = n_.can_append(other)
+            except Exception as ex:
+                bad("can_append", "can_append(empty %s) raised %s: %s" % (on, type(ex).__name__, ex), exc=type(ex).__name__, empty_argument=True)
+                continue
+            ctx.count("can_append_empty_calls")
+            common = on == tname or bool(set(_first(regex)) & set(_first(rs.nodes[on].regex)))
+            if not got:
+                bad("can_append", "%s%r.can_append(empty %s) = %r although appending nothing leaves the valid child sequence unchanged" % (tname, seq, on, got),
+                    expected=True, empty_argument=True, types_share_a_first_child=common)
+            else:
+                ctx.cover([sid, "can_append-empty", common], nontrivial=True)
